@@ -52,13 +52,29 @@ theorem acl_allows (h : addApp rx t rules a = (t', .accepted q)) (hnf : ¬(a.for
     that does not exist and has its create flag set (or is the recovery rule, for a forced application); every part
     of that name is a valid queue name; the new queues lie on the path of the name below the deepest queue that
     existed, which is not a leaf; they are unmanaged and active, a new leaf has that queue's child template applied
-    and new parents carry the template on (`NewBelow`). -/
+    (template-controlled settings and the effective settings derived from its properties, see
+    `created_queue_settings`) and new parents carry the template on (`NewBelow`). -/
 theorem created_only_with_create (hwf : ∀ r ∈ rules, Rule.wf r = true) (h : addApp rx t rules a = (t', out)) :
     ∃ news, t' = t ++ news ∧
       (news ≠ [] → ∃ nd rest n, FirstPassing rx t a rules (nd :: rest) n ∧ getQueue t n = none ∧
         (nd.create = true ∨ (nd.kind = .recovery ∧ a.forced = true ∧ n = recoveryQ)) ∧
         n.all validQueueName = true ∧ NewBelow t n news) :=
   Yk.Place.created_only_with_create hwf h
+
+/-- A created queue inherits the parent's child template in its EFFECTIVE settings too: the sort policy, priority sort /
+    policy / offset, preemption policy / delay, quota preemption delay and ask backoff of a new leaf are what
+    UpdateQueueProperties derives (`dynSettings` = `Yk.Reload.deriveSettings`, the derivation of the C16 model, off the
+    recovery queue path) from the properties of the child template of the deepest queue that existed — a dynamic queue
+    does not merge its parent's own properties; for a queue on the recovery queue path nothing is derived
+    (UpdateQueueProperties returns early: fifo, blank settings). A new parent has blank settings and carries the
+    template's properties on to the leaf created below it. -/
+theorem created_queue_settings (h : addApp rx t rules a = (t', out)) :
+    ∃ news, t' = t ++ news ∧
+      (news ≠ [] → ∃ r n anc, FirstPassing rx t a rules r n ∧ walkUp t n = some anc ∧
+        ∀ x ∈ news,
+          (x.leaf = true → x.tplProps = [] ∧ x.set = dynSettings x.path true anc.tplProps) ∧
+          (x.leaf = false → x.tplProps = anc.tplProps ∧ x.set = dynSettings x.path false [])) :=
+  created_settings h
 
 /-- An application that no rule matches (and without a root.default queue to fall back to) is rejected with the
     "no placement rule matched" reason, and nothing changes. -/
@@ -82,6 +98,27 @@ example : addApp (fun _ _ => false) [exRoot] exRecoveryRules { user := exUser, q
     ([exRoot], .rejected .noRule) := by decide
 example : addApp (fun _ _ => false) [exRoot] exRecoveryRules { user := exUser, queue := "root.@Recovery@".toList, tags := [] } =
     ([exRoot], .rejected .noRule) := by decide
+
+/-- The recovery queue PATH is protected as well: whatever the answer, a call creates no queue at or below
+    root.@recovery@ except the recovery leaf itself, and that only for a force-created application (a rule result below
+    any spelling of the recovery queue is a no-match in PlaceApplication; the recovery queue name itself is one for an
+    application that is not forced). For ALL trees, rule lists, oracles and applications. -/
+theorem recovery_path_protected (h : addApp rx t rules a = (t', out)) :
+    ∃ news, t' = t ++ news ∧
+      ∀ x ∈ news, recoveryQ <+: x.path → x.path = recoveryQ ∧ x.leaf = true ∧ a.forced = true :=
+  Yk.Place.recovery_path_protected h
+
+/-- … and no application is accepted into a queue below the recovery queue (e.g. a configured parent `@recovery@`). -/
+theorem nothing_placed_below_recovery (h : addApp rx t rules a = (t', .accepted q)) : ¬(recoveryQ <+: q ∧ 3 ≤ q.length) :=
+  accepted_not_below_recovery h
+
+/-- regression (former finding C17.V2): the requested queue root.@RECOVERY@.x is a no-match, nothing is created, and a
+    forced application afterwards still gets its recovery queue -/
+example : addApp (fun _ _ => false) [exRoot] exRecoveryRules { user := exUser, queue := "root.@RECOVERY@.x".toList, tags := [] } =
+    ([exRoot], .rejected .noRule) := by decide
+example : (addApp (fun _ _ => false) [exRoot] exRecoveryRules
+    { user := exUser, queue := "root.@RECOVERY@.x".toList, tags := [("application.create.force".toList, ['t', 'r', 'u', 'e'])] }).2 =
+    .accepted recoveryQ := by decide
 
 /-- Placement never panics: every name a rule returns starts with the part `root` (a fixed value counts as
     qualified only if it is `root` or starts with `root.`), so the walk-up loops of PlaceApplication / createQueue
@@ -150,5 +187,15 @@ example : addApp (fun _ _ => false) exTree exRules { user := exUser, queue := "r
 example : (addApp (fun _ _ => false) exTree exRules { user := { name := ['e', 'v', 'e'], groups := [] }, queue := "root.a.l".toList, tags := [] }).2 = .rejected .noRule := by decide
 example : (addApp (fun _ _ => false) exTree exRules { user := exUser, queue := "root.a b".toList, tags := [] }).2 = .rejected (.ruleErr .invalidName) := by decide
 example : (addApp (fun _ _ => false) exTree exRules { user := { name := ['e', 'v', 'e'], groups := [] }, queue := [], tags := [("application.create.force".toList, ['1'])] }).2 = .accepted recoveryQ := by decide
+
+/-- non-vacuity of `created_queue_settings`: the leaf created below a parent whose child template says
+    application.sort.policy=fair, priority.offset=5, preemption.policy=fence gets exactly these effective settings -/
+def exTplParent : Queue :=
+  { path := [sRoot, ['p']], leaf := false, managed := true, sacl := { all := true }, tpl := ['T'],
+    tplProps := [("application.sort.policy", "fair"), ("preemption.policy", "fence"), ("priority.offset", "5")] }
+example :
+    ((addApp (fun _ _ => false) [exRoot, exTplParent] exRecoveryRules { user := exUser, queue := "root.p.new".toList, tags := [] }).1.map
+      (fun q => (q.path, q.set.sort, q.set.prioOffset, q.set.preempt))) =
+    [(rootQ, "fair", 0, "default"), ([sRoot, ['p']], "fair", 0, "default"), ([sRoot, ['p'], ['n', 'e', 'w']], "fair", 5, "fence")] := by decide
 
 end Yk.C17
